@@ -110,9 +110,11 @@ impl SendWindow {
 
             let unacknowledged = (Wrapping(self.last_sent_seq_num) - Wrapping(ack_seq_num)).0;
 
-            if unacknowledged > self.window_size {
-                // More packets "in flight" than the window allows: this is an ACK
-                // for a sequence number we have never sent
+            if unacknowledged >= self.window_size - self.level {
+                // The ACK is not for one of the segments that are still unacknowledged
+                // (there are `window_size - level` of those, the newest being
+                // `last_sent_seq_num`): it is for a sequence number we have never sent,
+                // or for one that was acknowledged already
                 warn!("RX data integrity failure: ACK for a sequence number which was never sent");
                 Err(ErrorCode::InvalidData)?;
             }
